@@ -216,4 +216,15 @@ theorem wnode_own {w : OpK} {n : Nat} (h : wnode w = some n) (pc : PC) (hp : pcT
   · left; rw [hp, e]
   · right; rw [hd, e]
 
+macro "tok_closeX" : tactic =>
+  `(tactic| (constructor <;> intros <;> (try dsimp only at *) <;>
+      grind [upd, Alloc, klt, wtop, wstk, wdum, wnode, tkey, okeyS, okeyU, pcTop, pcStk, pcDum, pcStart, pcPrev, pcCur, pcNx,
+          pcGtCur, pcEq, pcFrozen, pcPP, pcPub, pcBkt, pcSz, skeyS, skeyU, ParChain, advance, notFound, found, afterChk, afterHd,
+          linked]))
+macro "eff_closeX" : tactic =>
+  `(tactic| (constructor <;> intros <;> (try dsimp only at *) <;>
+      grind [upd, Alloc, klt, wtop, wnode, okeyS, okeyU, lpRet, postRet, opOf, tent, foundRet, absentRet, gop, advance, notFound,
+        found, afterChk, afterHd, linked]))
+
+
 end CdsVerif.Algo.SplitList
